@@ -2725,6 +2725,11 @@ impl Server {
             }
         }
         
+        // NX and XX exclude each other
+        if nx && xx {
+            return Ok(RespFrame::error("ERR syntax error"));
+        }
+        
         // Handle NX option (only set if key doesn't exist) - use atomic operation
         if nx {
             let result = match expiration {
